@@ -239,7 +239,18 @@ def run_case(ns, mon, c):
             s_, e_ = c["start"] % rr, c["end"] % rr
             new = shp[:s_] + [int(np.prod(shp[s_:e_ + 1]))] + shp[e_ + 1:]
             x = rng.standard_normal(tuple(shp))
-            res, nel = both([x], lambda a: a.flatten(c["start"], c["end"]), lambda a: a.reshape(tuple(new)))
+            if c["seed"] % 2:
+                res, nel = both([x], lambda a: a.flatten(c["start"], c["end"]), lambda a: a.reshape(tuple(new)))
+            else:
+                # the operand is a full axis reversal (a Fortran-ordered view): flatten still enumerates elements in row-major order
+                perm = list(range(rr))[::-1]
+                xt = np.ascontiguousarray(x.transpose(perm))
+
+                def rev(a):
+                    for i_ in range(rr // 2):
+                        a = a.transpose(i_, rr - 1 - i_)
+                    return a
+                res, nel = both([xt], lambda a: rev(a).flatten(c["start"], c["end"]), lambda a: rev(a).reshape(tuple(new)))
         elif ident == "movedim":
             shp = c["shape"]; rr = len(shp)
             i = c["i"]; j = i + 1
